@@ -478,6 +478,234 @@ pub fn strategy() -> BoxedStrategy<Case> {
         .boxed()
 }
 
+
+/// One slow but conformant transfer that outlives several times its retransmission interval while other
+/// clients come and go on the same server.
+#[derive(Clone, Debug, Serialize, Deserialize)]
+pub struct LongCase {
+    pub single: bool,
+    pub write: bool,
+    /// requested timeout option in seconds (0 = none requested: the server's default applies)
+    pub timeout: u8,
+    /// the slow client answers every block after this many milliseconds (well below the timeout)
+    pub pace_ms: u64,
+    pub blocks: usize,
+    pub seed: u64,
+}
+
+fn short_transfer(srv_addr: SocketAddr, send: &Path, recv: &Path, i: usize, seed: u64) -> Result<(), String> {
+    let cl = Client::new();
+    let write = i % 2 == 1;
+    let data = content(seed ^ (i as u64 * 977 + 5), 300 + (i * 131) % 900);
+    let name = format!("{}{}.bin", if write { "su" } else { "sd" }, i);
+    if !write {
+        std::fs::write(send.join(&name), &data).map_err(|e| e.to_string())?;
+    }
+    let opts: Vec<(String, String)> = if i % 3 == 0 { vec![("blksize".to_string(), "1024".to_string())] } else { vec![] };
+    match wclient::start(&cl, srv_addr, write, &name, &opts, Duration::from_secs(4)) {
+        wclient::Start::Accepted { neg, first_data } => {
+            let mut src = vec![];
+            if write {
+                wclient::upload(&cl, &neg, &data, None, &mut src).map_err(|e| format!("short upload {}: {}", name, e))?;
+                let t0 = Instant::now();
+                loop {
+                    if std::fs::read(recv.join(&name)).map(|b| b == data).unwrap_or(false) {
+                        break;
+                    }
+                    if t0.elapsed() > Duration::from_secs(3) {
+                        return Err(format!("short upload {} is not stored byte-identically", name));
+                    }
+                    std::thread::sleep(Duration::from_millis(5));
+                }
+            } else {
+                let got = wclient::download(&cl, &neg, first_data, &mut src).map_err(|e| format!("short download {}: {}", name, e))?;
+                if got != data {
+                    return Err(format!("short download {} delivered {} bytes that differ from the file", name, got.len()));
+                }
+            }
+            Ok(())
+        }
+        other => Err(format!("short transfer {} not accepted: {:?}", name, other)),
+    }
+}
+
+fn run_long(dir: &Path, c: &LongCase) -> Result<Vec<&'static str>, (String, String)> {
+    let root = dir.join("c12long");
+    let _ = std::fs::remove_dir_all(&root);
+    let send = root.join("send");
+    let recv = root.join("recv");
+    std::fs::create_dir_all(&send).unwrap();
+    std::fs::create_dir_all(&recv).unwrap();
+    let blk = 512usize;
+    let data = content(c.seed, c.blocks * blk - 100);
+    let n_blocks = data.len() / blk + 1;
+    if !c.write {
+        std::fs::write(send.join("slow.bin"), &data).unwrap();
+    }
+    let mut args = vec![wire::s("-sd"), send.to_string_lossy().to_string(), wire::s("-rd"), recv.to_string_lossy().to_string()];
+    if c.single {
+        args.push(wire::s("-s"));
+    }
+    let logdir = dir.join("c12longlogs");
+    std::fs::create_dir_all(&logdir).unwrap();
+    let mut srv = match Server::start(&args, &logdir) {
+        Ok(s) => s,
+        Err(StartError::Exited(code, e)) => return Err(("harness".into(), format!("tftpd exited at start-up with {}: {}", code, e))),
+        Err(StartError::Harness(e)) => return Err(("harness".into(), e)),
+    };
+    let slow = Client::new();
+    let opts: Vec<(String, String)> = if c.timeout > 0 { vec![("timeout".to_string(), c.timeout.to_string())] } else { vec![] };
+    let t_start = Instant::now();
+    let (neg, mut pending) = match wclient::start(&slow, srv.addr, c.write, "slow.bin", &opts, Duration::from_secs(4)) {
+        wclient::Start::Accepted { neg, first_data } => (neg, first_data),
+        other => return Err(("transfer-disturbed".into(), format!("slow transfer not accepted: {:?}", other))),
+    };
+    if neg.blk != blk || neg.ws != 1 {
+        return Err(("harness".into(), format!("unexpected negotiation {:?}", (neg.blk, neg.ws))));
+    }
+    let effective_timeout = if c.timeout > 0 { c.timeout as u64 } else { 5 };
+    let mut others_after_six_timeouts = 0usize;
+    let mut got: Vec<u8> = vec![];
+    let pace = Duration::from_millis(c.pace_ms);
+    for k in 1..=n_blocks {
+        let t_block = Instant::now();
+        let wire_k = (k % 65536) as u16;
+        if c.write {
+            let s0 = (k - 1) * blk;
+            let e0 = (s0 + blk).min(data.len());
+            let pkt = refcodec::data(wire_k, &data[s0..e0]);
+            let mut tries = 0;
+            slow.send(&pkt, neg.peer);
+            loop {
+                match slow.recv(Duration::from_millis(1500)) {
+                    Some((b, from)) => match refcodec::decode(&b) {
+                        RDec::Ok(RPacket::Ack(a)) if a == wire_k => break,
+                        RDec::Ok(RPacket::Ack(_)) => continue,
+                        other => return Err(("long-transfer-disturbed".into(), format!("slow upload, {:.1} s after its start, block {}/{}: got {:?} from {}", t_start.elapsed().as_secs_f64(), k, n_blocks, other, from))),
+                    },
+                    None => {
+                        tries += 1;
+                        if tries > 4 {
+                            return Err(("long-transfer-disturbed".into(), format!("slow upload, {:.1} s after its start: no ACK for block {}/{}", t_start.elapsed().as_secs_f64(), k, n_blocks)));
+                        }
+                        slow.send(&pkt, neg.peer);
+                    }
+                }
+            }
+        } else {
+            let deadline = Instant::now() + Duration::from_secs(10);
+            loop {
+                let (block, d, from) = if let Some((b, d)) = pending.take() {
+                    (b, d, neg.peer)
+                } else {
+                    match slow.recv(Duration::from_millis(1500)) {
+                        Some((b, from)) => match refcodec::decode(&b) {
+                            RDec::Ok(RPacket::Data { block, data }) => (block, data, from),
+                            other => return Err(("long-transfer-disturbed".into(), format!("slow download, {:.1} s after its start, waiting for block {}/{}: got {:?} from {}", t_start.elapsed().as_secs_f64(), k, n_blocks, other, from))),
+                        },
+                        None => {
+                            if Instant::now() > deadline {
+                                return Err(("long-transfer-disturbed".into(), format!("slow download, {:.1} s after its start: block {}/{} never arrived", t_start.elapsed().as_secs_f64(), k, n_blocks)));
+                            }
+                            slow.send(&refcodec::ack(((k - 1) % 65536) as u16), neg.peer);
+                            continue;
+                        }
+                    }
+                };
+                let _ = from;
+                if block != wire_k {
+                    continue; // a retransmission of an earlier block (the harness was slower than the timeout)
+                }
+                got.extend_from_slice(&d);
+                break;
+            }
+        }
+        // somebody else is served in the meantime
+        if let Err(e) = short_transfer(srv.addr, &send, &recv, k, c.seed) {
+            return Err(("transfer-disturbed".into(), format!("{} ({:.1} s after the slow transfer started)", e, t_start.elapsed().as_secs_f64())));
+        }
+        if t_start.elapsed() > Duration::from_secs(6 * effective_timeout) {
+            others_after_six_timeouts += 1;
+        }
+        if let Some(rest) = pace.checked_sub(t_block.elapsed()) {
+            std::thread::sleep(rest);
+        }
+        if !c.write {
+            slow.send(&refcodec::ack(wire_k), neg.peer);
+        }
+    }
+    if c.write {
+        let t0 = Instant::now();
+        loop {
+            let stored = std::fs::read(recv.join("slow.bin")).unwrap_or_default();
+            if stored == data {
+                break;
+            }
+            if t0.elapsed() > Duration::from_secs(3) {
+                return Err(("upload-content".into(), format!("the slow upload sent {} bytes, the stored file has {}", data.len(), stored.len())));
+            }
+            std::thread::sleep(Duration::from_millis(10));
+        }
+    } else if got != data {
+        return Err(("download-content".into(), format!("the slow download received {} bytes that differ from its file ({} bytes)", got.len(), data.len())));
+    }
+    if let Some(st) = srv.exit_status() {
+        return Err(("server-terminated".into(), format!("tftpd exited ({}); stderr {}", st, srv.stderr_tail())));
+    }
+    drop(srv);
+    let _ = std::fs::remove_dir_all(&root);
+    let _ = std::fs::remove_dir_all(&logdir);
+    let mut classes = vec![];
+    if others_after_six_timeouts > 0 {
+        classes.push("outlived-six-timeouts-with-other-requests-afterwards");
+    }
+    Ok(classes)
+}
+
+pub fn judge_long(dir: &Path, c: &LongCase, obs: &mut Obs) -> Judge {
+    obs.class(if c.single { "single-port" } else { "multi-port" });
+    obs.class(if c.write { "slow-upload" } else { "slow-download" });
+    obs.class_if(c.timeout == 0, "default-timeout");
+    let r = match run_long(dir, c) {
+        Err((sig, d)) if sig != "harness" => match run_long(dir, c) {
+            Ok(k) => {
+                obs.inconclusive = Some(format!("failed once ({}: {}), passed on the isolated re-run", sig, d));
+                Ok(k)
+            }
+            other => other,
+        },
+        other => other,
+    };
+    match r {
+        Ok(classes) => {
+            obs.nontrivial = !classes.is_empty();
+            for k in classes {
+                obs.class(k);
+            }
+            Ok(())
+        }
+        Err((sig, d)) if sig == "harness" => {
+            obs.inconclusive = Some(d);
+            Ok(())
+        }
+        Err((sig, d)) => viol!(sig, "{} | {:?}", d, c),
+    }
+}
+
+fn long_cases(thorough: bool) -> Vec<LongCase> {
+    let mut out = vec![];
+    for single in [true, false] {
+        for write in [false, true] {
+            out.push(LongCase { single, write, timeout: 1, pace_ms: 450, blocks: 18, seed: 77 });
+            if thorough {
+                out.push(LongCase { single, write, timeout: 2, pace_ms: 900, blocks: 16, seed: 78 });
+                out.push(LongCase { single, write, timeout: 0, pace_ms: 2000, blocks: 17, seed: 79 });
+            }
+        }
+    }
+    out
+}
+
 /// K = 2: every interleaving of the two clients' steps for short transfers, both port modes
 fn exhaustive() -> Vec<Case> {
     let mut out = vec![];
@@ -511,16 +739,21 @@ fn exhaustive() -> Vec<Case> {
 }
 
 pub fn run(ctx: &Ctx) {
-    ctx.set_rule("K model clients (K=2..4 mostly, up to 16) with distinct files, mixed uploads/downloads, blksize in {default,8,100,1024,1428,4096}, windowsize 1..4, talk to one real tftpd (single or multi port). The harness is the only sender and is single-threaded, so the generated schedule (which client takes its next step - request or one window - and where foreign datagrams are injected) is the arrival order at the listening socket. Injections: ACK/DATA/ERROR/OACK from a foreign endpoint to the listening port and to a victim's transfer endpoint; stray packets from an endpoint whose transfer has finished. Exhaustive: all interleavings of the first 4 steps of 2 clients for 4 transfer pairs x both port modes. Oracle: every client ends with exactly its own bytes / every upload is stored exactly; single-port: every server datagram comes from the listening port; multi-port: each transfer from its own port, different from the listening port and from concurrent transfers; every well-formed non-request datagram sent to the listening port by an endpoint that owns no (or no longer a) transfer is answered with an ERROR; a foreign endpoint never receives a victim's file data. Non-trivial = >=2 transfers overlapped in time or >=1 foreign/stray datagram was injected; distinct = distinct cases.");
+    ctx.set_rule("K model clients (K=2..4 mostly, up to 16) with distinct files, mixed uploads/downloads, blksize in {default,8,100,1024,1428,4096}, windowsize 1..4, talk to one real tftpd (single or multi port). The harness is the only sender and is single-threaded, so the generated schedule (which client takes its next step - request or one window - and where foreign datagrams are injected) is the arrival order at the listening socket. Injections: ACK/DATA/ERROR/OACK from a foreign endpoint to the listening port and to a victim's transfer endpoint; stray packets from an endpoint whose transfer has finished. Exhaustive: all interleavings of the first 4 steps of 2 clients for 4 transfer pairs x both port modes. Oracle: every client ends with exactly its own bytes / every upload is stored exactly; single-port: every server datagram comes from the listening port; multi-port: each transfer from its own port, different from the listening port and from concurrent transfers; every well-formed non-request datagram sent to the listening port by an endpoint that owns no (or no longer a) transfer is answered with an ERROR; a foreign endpoint never receives a victim's file data. Part long-lived-transfer: one slow but conformant lock-step transfer (download or upload, both port modes; requested timeout 1 s answered after 450 ms per block, thorough also 2 s / 900 ms and the default timeout / 2 s) that lasts longer than six timeouts while after every block another client completes a short download or upload on the same server; the slow transfer must never see an ERROR or a stall and ends byte-identical, as do all short ones. Non-trivial = >=2 transfers overlapped in time or >=1 foreign/stray datagram was injected; distinct = distinct cases.");
     ctx.assume("interleaving granularity is one request or one window per client step; the gap between bind and connect of a multi-port socket cannot be scheduled from outside");
     let dirs = DirPool::new(ctx, "c12");
     let cases = exhaustive();
     enumerate(ctx, "exh-two-clients", &cases, true, |c, o| dirs.with(|d| judge(d, c, o)));
     explore_n(ctx, "random", ctx.tier.pick(2_500, 50_000), shards(), 32, strategy, |c: &Case, o| dirs.with(|d| judge(d, c, o)));
+    let longs = long_cases(ctx.tier.pick(false, true));
+    enumerate(ctx, "long-lived-transfer", &longs, true, |c, o| dirs.with(|d| judge_long(d, c, o)));
 }
 
 pub fn replay(ctx: &Ctx, part: &str, case: &Value) -> bool {
     let dirs = DirPool::new(ctx, "c12");
+    if part == "long-lived-transfer" {
+        return replay_one(ctx, part, case, |c: &LongCase, o| dirs.with(|d| judge_long(d, c, o)));
+    }
     replay_one(ctx, part, case, |c: &Case, o| dirs.with(|d| judge(d, c, o)))
 }
 
